@@ -29,6 +29,11 @@ package flow
 //@ ghost var gChkThr (Array Int Real)
 //@ ghost var gChkRes (Array Int Int)
 //@ ghost var gChkBlocked (Array Int Bool)
+// the wait each check asked for (0 unless its result is "should wait" with a positive wait) and the ghost total of
+// nanoseconds slept (slept_ns) at the moment of each check: together they pin down what the slot sleeps between checks
+//@ ghost var gChkWait (Array Int Int)
+//@ ghost var gChkSlept (Array Int Int)
+//@ spec func waitOf(r) = (r != nil && r.status == base.ResultStatusShouldWait && r.nanosToWait > 0) ? r.nanosToWait : 0
 
 //@ iface TrafficShapingCalculator.CalculateAllowedTokens(batchCount, flag) r
 //@   ensures gCalcN == old(gCalcN) + 1
@@ -41,8 +46,9 @@ package flow
 //@   ensures gChkRecv == upd(old(gChkRecv), old(gChkN), dynptr(this)) && gChkStat == upd(old(gChkStat), old(gChkN), resStat)
 //@   ensures gChkBatch == upd(old(gChkBatch), old(gChkN), batchCount) && gChkThr == upd(old(gChkThr), old(gChkN), threshold)
 //@   ensures gChkRes == upd(old(gChkRes), old(gChkN), r) && gChkBlocked == upd(old(gChkBlocked), old(gChkN), blocked(r))
+//@   ensures gChkWait == upd(old(gChkWait), old(gChkN), waitOf(r)) && gChkSlept == upd(old(gChkSlept), old(gChkN), slept_ns)
 //@   ensures r != nil ==> fresh(r)
-//@   modifies gChkN, gChkRecv, gChkStat, gChkBatch, gChkThr, gChkRes, gChkBlocked, all(ThrottlingChecker.lastPassedTime)
+//@   modifies gChkN, gChkRecv, gChkStat, gChkBatch, gChkThr, gChkRes, gChkBlocked, gChkWait, gChkSlept, all(ThrottlingChecker.lastPassedTime)
 
 //@ func (t *TrafficShapingController) PerformChecking(resStat, batchCount, flag) r
 //@   props C02, C10, C11
@@ -52,8 +58,9 @@ package flow
 //@   ensures[one-check] gChkN == old(gChkN) + 1 && gChkRecv == upd(old(gChkRecv), old(gChkN), dynptr(old(t.flowChecker))) && gChkBatch == upd(old(gChkBatch), old(gChkN), batchCount) && gChkStat == upd(old(gChkStat), old(gChkN), resStat)
 //@   ensures[threshold-is-calculated] gChkThr == upd(old(gChkThr), old(gChkN), sel(gCalcRes, old(gCalcN)))
 //@   ensures[result-is-checkers] gChkRes == upd(old(gChkRes), old(gChkN), r) && gChkBlocked == upd(old(gChkBlocked), old(gChkN), blocked(r))
+//@   ensures[wait-logged] gChkWait == upd(old(gChkWait), old(gChkN), waitOf(r)) && gChkSlept == upd(old(gChkSlept), old(gChkN), slept_ns)
 //@   ensures[fresh-result] r != nil ==> fresh(r)
-//@   modifies gCalcN, gCalcRecv, gCalcBatch, gCalcFlag, gCalcRes, all(WarmUpTrafficShapingCalculator.storedTokens), all(WarmUpTrafficShapingCalculator.lastFilledTime), gChkN, gChkRecv, gChkStat, gChkBatch, gChkThr, gChkRes, gChkBlocked, all(ThrottlingChecker.lastPassedTime)
+//@   modifies gCalcN, gCalcRecv, gCalcBatch, gCalcFlag, gCalcRes, all(WarmUpTrafficShapingCalculator.storedTokens), all(WarmUpTrafficShapingCalculator.lastFilledTime), gChkN, gChkRecv, gChkStat, gChkBatch, gChkThr, gChkRes, gChkBlocked, gChkWait, gChkSlept, all(ThrottlingChecker.lastPassedTime)
 
 //@ func (d *DirectTrafficShapingCalculator) CalculateAllowedTokens(batchCount, flag) r
 //@   props C02
@@ -71,10 +78,14 @@ package flow
 //@   ensures[none-earlier] forall j Int :: n0 <= j && j < gChkN - (blocked(r) ? 1 : 0) ==> !sel(gChkBlocked, j)
 //@   ensures[all-consulted] !blocked(r) ==> r == old(ctx.RuleCheckResult) && gChkN == n0 + len(tcs)
 //@   ensures[in-order] forall j Int :: n0 <= j && j < gChkN ==> sel(gChkRecv, j) == dynptr(tcs[j - n0].flowChecker) && sel(gChkBatch, j) == ctx.Input.BatchCount
+//@   ensures[sleeps-exactly-the-wait]{C10} forall j Int :: n0 <= j && j < gChkN ==> (j + 1 < gChkN ? sel(gChkSlept, j + 1) : slept_ns) == sel(gChkSlept, j) + sel(gChkWait, j)
+//@   ensures[no-other-sleep]{C10} (gChkN == n0 ==> slept_ns == old(slept_ns)) && (gChkN > n0 ==> sel(gChkSlept, n0) == old(slept_ns))
 //@   loop 1:
 //@     invariant[count] gChkN == n0 + #i && #i <= len(tcs)
 //@     invariant[no-block-yet] forall j Int :: n0 <= j && j < gChkN ==> !sel(gChkBlocked, j)
 //@     invariant[in-order] forall j Int :: n0 <= j && j < gChkN ==> sel(gChkRecv, j) == dynptr(tcs[j - n0].flowChecker) && sel(gChkBatch, j) == ctx.Input.BatchCount
+//@     invariant[slept] forall j Int :: n0 <= j && j < gChkN ==> (j + 1 < gChkN ? sel(gChkSlept, j + 1) : slept_ns) == sel(gChkSlept, j) + sel(gChkWait, j)
+//@     invariant[slept-first] (gChkN == n0 ==> slept_ns == old(slept_ns)) && (gChkN > n0 ==> sel(gChkSlept, n0) == old(slept_ns))
 
 //@ spec func independent(tc) = !tc.boundStat.reuseResourceStat && tc.boundStat.writeOnlyMetric != nil
 //@ spec func added(g, m, e) = sel(sel(g, dynptr(m)), e)
@@ -255,6 +266,23 @@ package flow
 //@     invariant[no-equal-yet] equalIdx == 0 - 1 && (forall j Int :: 0 <= j && j < #i ==> !eqRule(oldResTcs[j].rule, r))
 //@     invariant[stat-idx] 0 - 1 <= reuseStatIdx && reuseStatIdx < #i && (reuseStatIdx >= 0 ==> statReusable(oldResTcs[reuseStatIdx].rule, r) && (forall j Int :: 0 <= j && j < reuseStatIdx ==> !statReusable(oldResTcs[j].rule, r)))
 //@     invariant[no-stat-yet] reuseStatIdx < 0 ==> (forall j Int :: 0 <= j && j < #i ==> !statReusable(oldResTcs[j].rule, r))
+
+// the statistic handed to a new / modified rule never comes from a controller that an unchanged rule further down
+// the list is going to keep (that controller would otherwise be dropped from the candidates and the unchanged rule
+// rebuilt, losing its state); among the others it is the first statistic-compatible one
+//@ func statReuseIndexFor(r, oldResTcs, laterRules) idx
+//@   props C14
+//@   requires forall j Int :: 0 <= j && j < len(oldResTcs) ==> oldResTcs[j] != nil && oldResTcs[j].rule != nil
+//@   let n = len(oldResTcs)
+//@   ensures[range] 0 - 1 <= idx && idx < n
+//@   ensures[stat-compatible] idx >= 0 ==> statReusable(oldResTcs[idx].rule, r)
+//@   ensures[never-a-controller-kept-by-a-later-rule] idx >= 0 ==> (forall k Int :: 0 <= k && k < len(laterRules) ==> !eqRule(oldResTcs[idx].rule, laterRules[k]))
+//@   ensures[first-such] forall j Int :: 0 <= j && j < (idx >= 0 ? idx : n) && statReusable(oldResTcs[j].rule, r) ==> (exists k Int :: 0 <= k && k < len(laterRules) && eqRule(oldResTcs[j].rule, laterRules[k]))
+//@   modifies nothing
+//@   loop 1:
+//@     invariant[skipped-are-incompatible-or-kept] forall j Int :: 0 <= j && j < #i && statReusable(oldResTcs[j].rule, r) ==> (exists k Int :: 0 <= k && k < len(laterRules) && eqRule(oldResTcs[j].rule, laterRules[k]))
+//@   loop 2:
+//@     invariant[not-kept-so-far] !kept && (forall k Int :: 0 <= k && k < #i ==> !eqRule(oldRule, laterRules[k]))
 
 // ---- loader entry points as seen by the datasource layer (C18): calls are recorded
 //@ ghost var gFlowLoadN Int
